@@ -308,3 +308,14 @@ def check_container(case, ctx):
             for a, b in zip(els, rr):
                 same_definition(ctx, G.snapshot(a), b, 'smesh', 1e-12)
         shutil.rmtree(d, ignore_errors=True)
+    if pdim == 3 and len(els) > 1:
+        ctx.tag('fmt:vmesh')
+        d = tmpfile('vmeshdir_%d' % case['seed'])
+        os.makedirs(d, exist_ok=True)
+        exchange.export_vmesh(cont, os.path.join(d, 'v.vmesh'))
+        rr = exchange.import_vmesh(d)
+        if ctx.check(len(rr) == len(els), 'vmesh/container-count', 'multi vmesh export/import: %d of %d' % (len(rr), len(els)), what='container'):
+            for a, b in zip(els, rr):
+                if same_definition(ctx, G.snapshot(a), b, 'vmesh', 1e-12):
+                    reimport_eval(ctx, rng, G.defn_of(a), b, 'vmesh')
+        shutil.rmtree(d, ignore_errors=True)
